@@ -10,7 +10,7 @@ def run_reg(chk, A, table_auth):
                 s = regsim.RScn("none" if f % 5 else "packed-self", "ES256-P256" if f % 3 else "EdDSA")
                 s.flags, s.require_uv, s.require_up = f, ruv, rup
                 if f & 0x80:
-                    s.ext = (None, b"\xa0", b"\xa1\x68credBlob\x58\x20" + bytes(32))[(f // 4 + ruv + rup) % 3]
+                    s.ext = (None, b"\xa0", b"\xa1\x68credBlob\x58\x20" + bytes(32), b"\xa1\x63uvm\x81\x83\x02\x04\x02")[(f // 4 + ruv + rup) % 4]
                 pd, reg = regsim.build(s)
                 reg.attachment = (None, "platform", "cross-platform")[(f // 2 + ruv + 2 * rup) % 3]      # a client hint: no influence on any reported field
                 # the unauthenticated convenience copies of PublicKeyCredential.toJSON() (Level 3) claim other flags: only the SIGNED authenticator
